@@ -27,7 +27,7 @@ CHECKS = {
         "C08_transparent / C08_every_answer (with invalidation on declaration each answer equals f of the declarations made "
         "so far) and C08_refuted_without_invalidation. Tied to the code by (A) an AST-derived obligation that every lru_cache'd "
         "function of conversions.py is cleared by both equate and translate, and (B) interleaved histories in one process vs the "
-        "same declarations + the query in fresh processes, re-checked in the kernel through the memo machine.",
+        "same declarations + the query in fresh processes, re-checked in the kernel through the memo machine. C08_refuted_factor_order: the planner itself is not a function of the declarations alone -- it walks the factors of interned operands in the order of their first construction; scenario 'operand-order' (fresh process per query) reproduces this on the implementation and is the recorded finding history-dependent:factor-order, classified only when the planner model fed each process's exported factor order reproduces each outcome.",
    note=TB + "Assumes the planner has no hidden state besides _ratios/_offsets and the two lru caches (validated by the "
         "fresh-process differential). Axioms: none.",
    tech="Rocq proof: cache-coherence invariant by induction over histories (parametric in the planner)", ref="DESIGN.md §4 C08"),
@@ -38,7 +38,7 @@ CHECKS = {
         "exported registry that the (prefix, factors) keys of all registered units are pairwise distinct and that every unit's constructor arguments find it; on the "
         "implementation every registered dimension, prefix and unit goes through pickle (default and protocol 2), copy, deepcopy, the JSON codec classes, the installed "
         "codecs and pydantic (JSON text and plain dict), plus random compound / prefixed units, mixed-base prefixes and int/float/Decimal quantities (also the SQL "
-        "composite form): identity, unchanged names/symbols, equality, magnitude type.",
+        "composite form): identity, unchanged names/symbols, equality, magnitude type. Codec model (Model/Codec.v): JSON documents of dimensions, prefixes and units as a datatype, enc/dec as functions against the interning registry; C15_json_unit_roundtrip(_checked): decoding the written document returns the same handle and leaves the registry unchanged under unique keys, faithful names, stored factors, canonical prefixes (boolean forms proved sound and evaluated on the exported registry each run); C15_json_dimension/prefix_roundtrip; C15_refuted_value_one_prefix (the defect repaired by 1df1998, found by this proof); pickle model pload/pdump with C15_pickle_roundtrip, C15_stale_pickle_keeps_names, C15_refuted_stale_pickle (36300c5). Tie: keys read by each __from_json__ and the __setstate__ guards extracted from the source (fail-closed); encoder documents = enc_unit and the library's decoder = dec_unit on written and mutated documents, in the kernel.",
    note=TB + "Modelled, not verified: the pickle / copy / json / pydantic protocols themselves (that they call __new__ with __getnewargs_ex__ / __from_json__). Quantity JSON "
         "stores the unit as text and inherits C13's findings (known finding). Pickle protocols 0/1 cannot pickle __slots__ classes (CPython rule). Axioms: none.",
    tech="Rocq proof: intern-table re-entry lemmas (generic keyed table + unit table over all histories) + reflective vm_compute check of the exported registry + exhaustive codec runs",
@@ -50,7 +50,7 @@ CHECKS = {
         "_parser.DATA/MEMO and fresh tables by running the Makefile's generator command on measured.lark; Coq discharges shipped_is_fresh_unit/quantity (all states and "
         "entries), tables closed, end states without actions, rules_equal, terminals_equal, options_equal. Both real parsers also run on generated accepted and rejected "
         "strings (trees compared canonically); when an obligation breaks, the access path of the first table difference and the characters on which two terminal "
-        "regexes disagree are turned into candidate inputs.",
+        "regexes disagree are turned into candidate inputs. C16_every_text: with the character-level model (Model/Lex.v: Python-re matching for the terminals' regex subset, Lark's scanner order, contextual lexer with root-lexer fallback, tree builder) two artefacts with equal scanner data and related tables return the same tree or exception class on EVERY text; the regexes are parsed out of _parser.MEMO by a fail-closed translator, Gen_lexdata shows both artefacts yield the same terms, and Run_text_* compares the model with the shipped parser text by text (also through measured._parser.Parser() as the package uses it).",
    note=TB + "Modelled, not verified: the embedded Lark runtime (driver + contextual lexer are modelled; regex matching and callbacks are parameters of the theorem, "
         "so it holds whatever they do as long as both parsers use the same terminal definitions and rules, which is checked). The generator is the installed Lark 1.3.1; "
         "the shipped module embeds 1.1.2. Axioms: none.",
@@ -62,7 +62,7 @@ CHECKS = {
         "model, never a result. Per run: kernel-checked transformer model = Unit.parse on structured term sequences over registered, prefixed, named and unknown symbols; "
         "on the implementation Unit.parse and Quantity.parse run (twice each, with the registered names/symbols compared before and after) on grammar-generated inputs, "
         "token-level damage, random strings and arbitrary Unicode, numerals and exponents beyond int()'s digit limit and the float range, mixed-base prefixes with huge "
-        "exponents and rejected inputs whose earlier terms resolve through a prefix split.",
+        "exponents and rejected inputs whose earlier terms resolve through a prefix split. Text level: unit_parse_text / quantity_parse_text (Model/TextParse.v) compose scanner, LALR driver, tree reading and evaluation into Unit.parse / Quantity.parse from the characters on, including the embedded transformer's ordering (a KeyError from an already reduced term precedes a syntax error further right) and int()'s 4300-digit limit; C17_lexer_progress, C17_match_is_prefix; Run_textparse_* / Run_textq_*: the pipeline evaluated in the kernel equals the implementation (unit, magnitude type and integer value, or KeyError / ParseError) on structured and free-form texts.",
    note=TB + "Partial by nature: character-level totality (regex scanner, CPython's int()/float() limits, which exceptions callbacks can raise) is not a theorem; it is "
         "established by running the implementation. The LALR driver is the model of C16. Axioms: none.",
    tech="Rocq proof over the transformer model (case analysis) + vm_compute correspondence + exception-class fuzzing of the implementation", ref="DESIGN.md §4 C17"),
@@ -172,7 +172,7 @@ CHECKS = {
         "C13_divide_is_negative_exponent. Per run, on the symbol tables exported from the implementation: the collision sweep over EVERY prefix symbol x EVERY unit symbol "
         "and every registered name evaluated in the kernel; kernel-checked model = implementation for Unit.resolve_symbol (whole grid + names), for the text of str(unit) "
         "(rendered in Coq, superscripts included) and for Unit.parse(str(unit)) over every named unit x every prefix x exponents and random products; quantities and "
-        "alternative spellings evaluated on the implementation.",
+        "alternative spellings evaluated on the implementation. Text level: Run_print_*.text_level_agrees -- the text the model's printer writes, scanned and parsed by the character-level parser model, gives back exactly the printed term list for every unit of the run; C13_text_roundtrip_is_term_roundtrip lifts C13_parse_print to Unit.parse(str(u)).",
    note=TB + "The string <-> term step (lexing; juxtaposition vs explicit operators) is covered by correspondence and by C16, not by a theorem. Known finding classes: "
         "leading magnitude, prefix without symbol, seven prefix+symbol collisions (kg is the deliberate equal mapping). Mixed-base prefixes are outside the exact model. Axioms: none.",
    tech="Rocq proof: parse-of-print over the unit algebra (induction over the term list, uwf invariant) + reflective vm_compute sweep of the exported symbol tables + kernel-checked correspondence",
@@ -182,7 +182,7 @@ CHECKS = {
         "Coquelicot's Derive, over the reals, for all measurands (zero included for + - *), all sigmas and every non-zero integer exponent; C14_pow_closed_form, "
         "C14_nonneg, C14_plain_quantity_*. Tie A: a fail-closed ast translator re-derives the radicand expression trees from Measurement.__add__/__sub__/__mul__/"
         "__truediv__/_join_uncertainties/__pow__ on every run and Coq checks they are the trees the theorems are about. Tie B: measurand and squared uncertainty "
-        "of the implementation vs the model in the kernel (exact rationals, 1e-9) over signed, zero and Decimal operands in mixed units.",
+        "of the implementation vs the model in the kernel (exact rationals, 1e-9) over signed, zero and Decimal operands in mixed units. Zero measurands of every numeric type under every positive power (the Decimal(0)**0 defect repaired by 5a5eb95); operands on temperature scales: same-zero pairs are right, different zero points are the recorded finding uncertainty:offset-scales.",
    note=TB + "Axioms (standard library reals, via Reals/Coquelicot): ClassicalDedekindReals.sig_not_dec, ClassicalDedekindReals.sig_forall_dec, "
         "FunctionalExtensionality.functional_extensionality_dep, Classical_Prop.classic. math.sqrt and float products are measured, not proved. "
         "Unit independence of the result rests on quantity arithmetic (C06).",
